@@ -473,6 +473,28 @@ func checkRound(r Round) (out evid.Outcome) {
 	if r.Middleware == 3 || r.Middleware >= 5 {
 		out.Classes = append(out.Classes, "middleware-slice-with-spare-capacity")
 	}
+	hdrs := map[string]string{}
+	samePath, index := false, false
+	for _, l := range r.Lists {
+		for _, i := range l {
+			q := r.Pool[i]
+			if strings.HasPrefix(q.P, "/api/") {
+				if h, ok := hdrs[q.P]; ok && (h == "v1") != (q.Hdr == "v1") {
+					samePath = true
+				}
+				hdrs[q.P] = q.Hdr
+			}
+			if strings.HasPrefix(q.P, "/assets/docs") {
+				index = true
+			}
+		}
+	}
+	if samePath {
+		out.Classes = append(out.Classes, "same-path-with-different-constrained-header-values")
+	}
+	if index {
+		out.Classes = append(out.Classes, "directory-index-file")
+	}
 	out.Classes = append(out.Classes, fmt.Sprintf("goroutines:%d", (len(r.Lists)+3)/4*4))
 	return out
 }
@@ -514,7 +536,8 @@ func genReq(t *rapid.T, n int) Req {
 		}
 		q.P = "/blob/" + strings.Join(parts, "/")
 	case 9:
-		q.P = "/api/" + s()
+		// (few paths, so that the same path comes with different header values)
+		q.P = "/api/" + seg[rapid.IntRange(0, 2).Draw(t, "apiseg")]
 		q.Hdr = []string{"", "v1", "v2"}[rapid.IntRange(0, 2).Draw(t, "h")]
 		q.HdrTwice = q.Hdr != "" && rapid.Bool().Draw(t, "htwice")
 	case 10:
@@ -572,6 +595,22 @@ func genRound(t *rapid.T) Round {
 	n := rapid.IntRange(4, 30).Draw(t, "pool")
 	for i := 0; i < n; i++ {
 		r.Pool = append(r.Pool, genReq(t, i))
+	}
+	if rapid.Bool().Draw(t, "apipair") {
+		// on purpose: one path of the header-constrained route, once with a value
+		// that satisfies the constraint and once with one that does not
+		p := "/api/" + seg[rapid.IntRange(0, len(seg)-1).Draw(t, "pairseg")]
+		r.Pool = append(r.Pool,
+			Req{M: "GET", P: p, Token: fmt.Sprintf("tok-%d", n), Hdr: "v1"},
+			Req{M: "GET", P: p, Token: fmt.Sprintf("tok-%d", n+1), Hdr: []string{"", "v2"}[rapid.IntRange(0, 1).Draw(t, "pairhdr")]})
+		n += 2
+	}
+	if rapid.IntRange(0, 2).Draw(t, "indexpair") == 0 {
+		// on purpose: the directory index requested by several goroutines
+		r.Pool = append(r.Pool,
+			Req{M: "GET", P: "/assets/docs/", Token: fmt.Sprintf("tok-%d", n)},
+			Req{M: "GET", P: "/assets/docs/", Token: fmt.Sprintf("tok-%d", n+1)})
+		n += 2
 	}
 	g := rapid.IntRange(2, 16).Draw(t, "goroutines")
 	same := rapid.IntRange(0, 2).Draw(t, "samefirst") > 0
